@@ -59,7 +59,11 @@ class FlagSimpleOpWriteHandler(AbstractWriteHandler):
         op: SsbOperation = self.start_vertex["op"]
         self.decompiler.source_map_add_opcode(op.offset)
         if op.op_code.name == OPS_FLAG__CALC_BIT:
-            self.decompiler.write_stmnt(f"{op.params[0]}[{op.params[1]}] = {op.params[2]};")
+            if str(op.params[0]) == self.decompiler.performance_progress_list_var_name:
+                # (the assignment spelling belongs to flag_SetPerformance)
+                self.decompiler.write_stmnt(f"{op.op_code.name}({', '.join(str(p) for p in op.params)});")
+            else:
+                self.decompiler.write_stmnt(f"{op.params[0]}[{op.params[1]}] = {op.params[2]};")
         elif op.op_code.name == OPS_FLAG__CALC_VALUE:
             self.decompiler.write_stmnt(f"{op.params[0]} {SsbCalcOperator(op.params[1]).notation} {op.params[2]};")  # type: ignore
         elif op.op_code.name == OPS_FLAG__CALC_VARIABLE:
